@@ -27,12 +27,11 @@ Qed.
 Lemma list_eqb_eq a b : list_eqb a b = true <-> a = b.
 Proof.
   unfold list_eqb. revert b. induction a as [|x a IH]; intros [|y b]; cbn; try (split; intros; congruence).
-  - split; reflexivity.
-  - split.
+  split.
     + intros H. apply andb_true_iff in H as [H1 H2]. cbn in H2. apply andb_true_iff in H2 as [H2 H3].
       apply Nat.eqb_eq in H2. subst. f_equal. apply IH. apply andb_true_iff. split; assumption.
     + intros [= -> ->]. destruct (IH b) as [_ IH']. specialize (IH' eq_refl).
-      apply andb_true_iff in IH' as [H1 H2]. cbn. rewrite Nat.eqb_refl. cbn. rewrite H1, H2. reflexivity.
+      apply andb_true_iff in IH' as [H1 H2]. rewrite H1, Nat.eqb_refl, H2. reflexivity.
 Qed.
 
 Lemma is_perm_of_seq_spec p : is_perm_of_seq p = true <-> Permutation p (seq 0 (length p)).
@@ -43,6 +42,22 @@ Proof.
   - intros H. split.
     + apply (Permutation_NoDup (Permutation_sym H)). apply seq_NoDup.
     + intros i Hi. apply Nat.ltb_lt. apply (Permutation_in _ H) in Hi. apply in_seq in Hi. lia.
+Qed.
+
+Lemma NoDup_app_iff {A} (a b : list A) :
+  NoDup (a ++ b) <-> NoDup a /\ NoDup b /\ (forall x, In x a -> ~ In x b).
+Proof.
+  induction a as [|x a IH]; cbn.
+  - split; [intros H; repeat split; [constructor|exact H|intros ? []]|intros (_ & H & _); exact H].
+  - split.
+    + intros H. inversion H as [|? ? Hni Hnd]; subst. apply IH in Hnd. destruct Hnd as (Ha & Hb & Hd).
+      repeat split; [constructor; [|exact Ha]|exact Hb|].
+      * intros Hin. apply Hni. apply in_or_app. left. exact Hin.
+      * intros y [->|Hy]; [|apply Hd; exact Hy]. intros Hin. apply Hni. apply in_or_app. right. exact Hin.
+    + intros (Ha & Hb & Hd). inversion Ha as [|? ? Hni Hnd]; subst. constructor.
+      * intros Hin. apply in_app_or in Hin. destruct Hin as [Hin|Hin]; [contradiction|].
+        apply (Hd x); [left; reflexivity|exact Hin].
+      * apply IH. repeat split; [exact Hnd|exact Hb|]. intros y Hy. apply Hd. right. exact Hy.
 Qed.
 
 (* ---- association lists ----------------------------------------------------------------------- *)
@@ -152,7 +167,7 @@ Section AssocLemmas.
 
   Lemma akeys_aset k v l : akeys (aset k v l) = if amem k l then akeys l else akeys l ++ [k].
   Proof.
-    unfold amem. induction l as [|[k2 v2] t IH]; cbn; [reflexivity|].
+    unfold amem, akeys. induction l as [|[k2 v2] t IH]; cbn; [reflexivity|].
     destruct (Nat.eqb_spec k k2) as [->|Hne]; cbn; [reflexivity|].
     rewrite IH. destruct (aget k t); reflexivity.
   Qed.
@@ -160,9 +175,8 @@ Section AssocLemmas.
   Lemma NoDup_akeys_aset k v l : NoDup (akeys l) -> NoDup (akeys (aset k v l)).
   Proof.
     intros Hnd. rewrite akeys_aset. destruct (amem k l) eqn:E; [exact Hnd|].
-    apply NoDup_Add with (a := k) (l := akeys l); [|constructor; [|exact Hnd]].
-    - apply Add_app with (l2 := []).
-    - intros Hin. apply amem_true in Hin. congruence.
+    apply Permutation_NoDup with (l := k :: akeys l); [apply Permutation_cons_append|].
+    constructor; [|exact Hnd]. intros Hin. apply amem_true in Hin. congruence.
   Qed.
 
   Lemma akeys_app l1 l2 : akeys (l1 ++ l2) = akeys l1 ++ akeys l2.
@@ -170,9 +184,9 @@ Section AssocLemmas.
 
   Lemma NoDup_akeys_snoc k v l : NoDup (akeys l) -> aget k l = None -> NoDup (akeys (l ++ [(k, v)])).
   Proof.
-    intros Hnd Hn. rewrite akeys_app. cbn. apply NoDup_Add with (a := k) (l := akeys l).
-    - apply Add_app with (l2 := []).
-    - constructor; [|exact Hnd]. apply aget_None. exact Hn.
+    intros Hnd Hn. rewrite akeys_app. cbn.
+    apply Permutation_NoDup with (l := k :: akeys l); [apply Permutation_cons_append|].
+    constructor; [|exact Hnd]. apply aget_None. exact Hn.
   Qed.
 
   Lemma length_aset_mem k v l : amem k l = true -> length (aset k v l) = length l.
@@ -200,13 +214,8 @@ Section AssocLemmas.
     - cbn. split; [intros _; split; intros; discriminate|intros _; constructor].
     - inversion Hnd as [|? ? Hni Hnd']; subst. specialize (IH Hnd').
       cbn [flat_map]. split.
-      + intros H. apply NoDup_app_remove_l in H as Ht. pose proof H as H0.
-        apply NoDup_app_remove_r in H0. apply IH in Ht. destruct Ht as [Ht1 Ht2].
-        assert (Hdisj : forall w, In w (f (k0, v0)) -> ~ In w (flat_map f t)).
-        { intros w Hw Hw2. clear - H Hw Hw2. induction (f (k0, v0)) as [|a r IHr]; [destruct Hw|].
-          cbn in H. inversion H; subst. destruct Hw as [->|Hw].
-          - apply H2. apply in_or_app. right. exact Hw2.
-          - apply IHr; assumption. }
+      + intros H. apply NoDup_app_iff in H. destruct H as (H0 & Ht & Hdisj).
+        apply IH in Ht. destruct Ht as [Ht1 Ht2].
         split.
         * intros k v. cbn. destruct (Nat.eqb_spec k k0) as [->|Hne]; [intros [= <-]; exact H0|apply Ht1].
         * intros k1 v1 k2 v2 w. cbn.
@@ -231,10 +240,204 @@ Section AssocLemmas.
           assert (E2 : aget k2 t = Some v2) by (apply In_aget; assumption).
           assert (k0 = k2) by (eapply (H2 k0 v0 k2 v2 w); eauto). subst.
           apply Hni. eapply aget_Some_keys; eauto. }
-        clear - H1 Hsub Hdisj. induction (f (k0, v0)) as [|a r IHr]; [exact Hsub|].
-        cbn. inversion H1; subst. constructor.
-        * intros Hin. apply in_app_or in Hin. destruct Hin as [Hin|Hin]; [contradiction|].
-          apply (Hdisj a); [left; reflexivity|exact Hin].
-        * apply IHr; [assumption|]. intros w Hw. apply Hdisj. right. exact Hw.
+        apply NoDup_app_iff. repeat split; assumption.
   Qed.
 End AssocLemmas.
+
+(* ---- acyclicity: the fuelled climb against a rank function ------------------------------------ *)
+Fixpoint anc (l : list (id * node)) (f : nat) (k : id) : list id :=
+  match f with
+  | O => []
+  | S f' => match aget k l with
+            | None => []
+            | Some n => k :: match parent n with None => [] | Some p => anc l f' p end
+            end
+  end.
+
+Definition ranked (l : list (id * node)) (d : id -> nat) : Prop :=
+  forall c cn p, aget c l = Some cn -> parent cn = Some p -> d p < d c.
+Definition parents_closed (l : list (id * node)) : Prop :=
+  forall c cn p, aget c l = Some cn -> parent cn = Some p -> In p (akeys l).
+
+Lemma anc_incl l f k : incl (anc l f k) (akeys l).
+Proof.
+  revert k. induction f as [|f IH]; intros k; cbn; [intros ? []|].
+  destruct (aget k l) as [n|] eqn:E; [|intros ? []].
+  intros x [<-|Hx]; [eapply aget_Some_keys; eauto|].
+  destruct (parent n); [eapply IH; eauto|destruct Hx].
+Qed.
+
+Lemma anc_ranked l d f k : ranked l d -> (forall x, In x (anc l f k) -> d x <= d k) /\ NoDup (anc l f k).
+Proof.
+  intros Hr. revert k. induction f as [|f IH]; intros k; cbn; [split; [intros ? []|constructor]|].
+  destruct (aget k l) as [n|] eqn:E; [|split; [intros ? []|constructor]].
+  destruct (parent n) as [p|] eqn:Ep.
+  - destruct (IH p) as [H1 H2]. pose proof (Hr k n p E Ep) as Hlt. split.
+    + intros x [<-|Hx]; [lia|]. apply H1 in Hx. lia.
+    + constructor; [|exact H2]. intros Hin. apply H1 in Hin. lia.
+  - split; [intros x [<-|[]]; lia|]. constructor; [intros []|constructor].
+Qed.
+
+Lemma anc_length_le l d f k : ranked l d -> length (anc l f k) <= length l.
+Proof.
+  intros Hr. replace (length l) with (length (akeys l)) by (unfold akeys; apply map_length).
+  apply NoDup_incl_length; [apply (anc_ranked l d f k Hr)|apply anc_incl].
+Qed.
+
+Lemma anc_full l f k : parents_closed l -> In k (akeys l) -> climbs l f k = false -> length (anc l (S f) k) = S f.
+Proof.
+  intros Hc. revert k. induction f as [|f IH]; intros k Hk Hf.
+  - cbn. apply keys_aget in Hk. destruct Hk as [n ->]. destruct (parent n); reflexivity.
+  - cbn in Hf. change (anc l (S (S f)) k) with
+      (match aget k l with None => [] | Some n => k :: match parent n with None => [] | Some p => anc l (S f) p end end).
+    destruct (aget k l) as [n|] eqn:E; [|apply aget_None in E; contradiction].
+    destruct (parent n) as [p|] eqn:Ep; [|discriminate]. cbn [length]. f_equal. apply IH; [|exact Hf].
+    eapply Hc; eauto.
+Qed.
+
+Lemma ranked_climbs l d k : ranked l d -> parents_closed l -> In k (akeys l) -> climbs l (length l) k = true.
+Proof.
+  intros Hr Hc Hk. destruct (climbs l (length l) k) eqn:E; [reflexivity|].
+  pose proof (anc_full l _ k Hc Hk E) as H1. pose proof (anc_length_le l d (S (length l)) k Hr) as H2. lia.
+Qed.
+
+Lemma climbs_anc_stable l f k : climbs l f k = true -> forall f', f <= f' -> anc l f' k = anc l f k.
+Proof.
+  revert k. induction f as [|f IH]; intros k H f' Hle; [discriminate|].
+  destruct f' as [|f']; [lia|]. cbn in *. destruct (aget k l) as [n|]; [|reflexivity].
+  destruct (parent n) as [p|]; [|reflexivity]. f_equal. apply IH; [exact H|lia].
+Qed.
+
+Lemma climbs_ranked l :
+  (forall k, In k (akeys l) -> climbs l (length l) k = true) ->
+  ranked l (fun k => length (anc l (length l) k)).
+Proof.
+  intros H c cn p Ec Ep. pose proof (H c (aget_Some_keys _ _ _ Ec)) as Hc.
+  destruct (length l) as [|f] eqn:El; [discriminate|].
+  cbn in Hc. rewrite Ec, Ep in Hc.
+  change (anc l (S f) c) with
+    (match aget c l with None => [] | Some n => c :: match parent n with None => [] | Some p => anc l f p end end).
+  rewrite Ec, Ep. cbn [length]. rewrite (climbs_anc_stable l f p Hc (S f)) by lia. lia.
+Qed.
+
+(* ---- reflection: wfb s = true <-> wf s ---------------------------------------------------------- *)
+Lemma child_ok_spec s k c :
+  child_ok s k c = true <-> exists cn, aget c (nodes s) = Some cn /\ parent cn = Some k.
+Proof.
+  unfold child_ok. destruct (aget c (nodes s)) as [cn|].
+  - destruct (parent cn) as [q|] eqn:Ep.
+    + rewrite Nat.eqb_eq. split; [intros ->; eauto|]. intros (cn' & [= <-] & E). congruence.
+    + split; [discriminate|]. intros (cn' & [= <-] & E). congruence.
+  - split; [discriminate|intros (cn' & ? & _); discriminate].
+Qed.
+
+Lemma parent_ok_spec s k n :
+  parent_ok s k n = true <->
+  forall p, parent n = Some p ->
+    exists pn i, aget p (nodes s) = Some pn /\ In k (children pn) /\ neighbour_index pn k = Some i
+                 /\ nth 0 (lax s k n) 0 = nth i (lax s p pn) 0.
+Proof.
+  unfold parent_ok. destruct (parent n) as [p|]; [|split; [intros _ ? ?; discriminate|reflexivity]].
+  split.
+  - intros H p' [= <-]. destruct (aget p (nodes s)) as [pn|]; [|discriminate].
+    apply andb_true_iff in H as [H1 H2]. apply memb_In in H1.
+    destruct (neighbour_index pn k) as [i|] eqn:Ei; [|discriminate]. apply Nat.eqb_eq in H2.
+    exists pn, i. repeat split; auto.
+  - intros H. destruct (H p eq_refl) as (pn & i & -> & H1 & -> & H2).
+    apply andb_true_iff. split; [apply memb_In; exact H1|apply Nat.eqb_eq; exact H2].
+Qed.
+
+Lemma node_ok_spec s k n : node_ok s (k, n) = true <-> node_inv s k n.
+Proof.
+  unfold node_ok. cbn [fst snd]. rewrite !andb_true_iff. split.
+  - intros [[[[[[[H1 H2] H3] H4] H5] H6] H7] H8].
+    apply is_perm_of_seq_spec in H2. apply Nat.eqb_eq in H3. apply list_eqb_eq in H4.
+    apply Nat.leb_le in H5. apply nodupb_NoDup in H6. rewrite forallb_forall in H7.
+    constructor; auto.
+    + rewrite <- H3. exact H2.
+    + intros c Hc. apply child_ok_spec. apply H7. exact Hc.
+    + apply parent_ok_spec. exact H8.
+  - intros [H1 H2 H3 H4 H5 H6 H7].
+    assert (El : length (perm n) = length (shape n)).
+    { apply Permutation_length in H2. rewrite seq_length in H2. exact H2. }
+    repeat split; auto.
+    + apply is_perm_of_seq_spec. rewrite El. exact H2.
+    + apply Nat.eqb_eq. exact El.
+    + apply list_eqb_eq. exact H3.
+    + apply Nat.leb_le. exact H4.
+    + apply nodupb_NoDup. exact H5.
+    + apply forallb_forall. intros c Hc. apply child_ok_spec. apply H6. exact Hc.
+    + apply parent_ok_spec. exact H7.
+Qed.
+
+Lemma is_root_spec n : is_root n = true <-> parent n = None.
+Proof. unfold is_root. destruct (parent n); split; congruence. Qed.
+
+Lemma root_ok_spec s : NoDup (akeys (nodes s)) ->
+  (root_ok s = true <->
+   exists r rn, root s = Some r /\ aget r (nodes s) = Some rn /\ parent rn = None
+                /\ forall k n, aget k (nodes s) = Some n -> parent n = None -> k = r).
+Proof.
+  intros Hnd. unfold root_ok. destruct (root s) as [r|]; [|split; [discriminate|intros (? & ? & ? & _); discriminate]].
+  destruct (aget r (nodes s)) as [rn|] eqn:Er.
+  - rewrite andb_true_iff, is_root_spec, (forallb_assoc _ _ Hnd). split.
+    + intros [H1 H2]. exists r, rn. repeat split; auto. intros k n E Hp. specialize (H2 k n E). cbn in H2.
+      apply is_root_spec in Hp. rewrite Hp in H2. apply Nat.eqb_eq. exact H2.
+    + intros (r' & rn' & [= <-] & E & Hp & H). rewrite Er in E. injection E as <-. split; [exact Hp|].
+      intros k n E. cbn. destruct (is_root n) eqn:Hr; [|reflexivity]. apply Nat.eqb_eq. apply (H k n E).
+      apply is_root_spec. exact Hr.
+  - split; [discriminate|]. intros (r' & rn' & [= <-] & E & _). rewrite Er in E. discriminate.
+Qed.
+
+Lemma wf_parents_closed s : (forall k n, aget k (nodes s) = Some n -> node_inv s k n) -> parents_closed (nodes s).
+Proof.
+  intros H c cn p Ec Ep. destruct (ni_par _ _ _ (H c cn Ec) p Ep) as (pn & i & E & _).
+  eapply aget_Some_keys; eauto.
+Qed.
+
+Theorem wfb_wf s : wfb s = true -> wf s.
+Proof.
+  unfold wfb. rewrite !andb_true_iff. intros [[[[[[[[H1 H2] H3] H4] H5] H6] H7] H8] H9].
+  apply nodupb_NoDup in H1. apply nodupb_NoDup in H2.
+  rewrite (forallb_assoc _ _ H2) in H3. apply (root_ok_spec s H1) in H4.
+  rewrite (forallb_assoc _ _ H1) in H5. apply nodupb_NoDup in H6.
+  unfold own_wires in H6. apply (NoDup_flat_map_assoc _ _ H1) in H6. destruct H6 as [H6a H6b].
+  rewrite (forallb_assoc _ _ H2) in H7. rewrite forallb_forall in H8.
+  rewrite (forallb_assoc _ _ H1) in H9.
+  constructor.
+  - exact H1.
+  - exact H2.
+  - intros k Hk. apply amem_aget in Hk. destruct Hk as [t Ht]. apply (H3 k t Ht).
+  - exact H4.
+  - intros k n E. apply node_ok_spec. apply H5. exact E.
+  - intros k n E. apply (H6a k n E).
+  - intros k1 n1 k2 n2 w E1 E2. apply (H6b k1 n1 k2 n2 w E1 E2).
+  - intros k t w E Hw. specialize (H7 k t E). cbn in H7. rewrite forallb_forall in H7.
+    apply Nat.ltb_lt. apply H7. exact Hw.
+  - intros w Hw. unfold akeys in Hw. apply in_map_iff in Hw. destruct Hw as (wd & <- & Hin).
+    apply Nat.ltb_lt. apply H8. exact Hin.
+  - exists (fun k => length (anc (nodes s) (length (nodes s)) k)). apply climbs_ranked.
+    intros k Hk. apply keys_aget in Hk. destruct Hk as [n E]. apply (H9 k n E).
+Qed.
+
+Theorem wf_wfb s : wf s -> wfb s = true.
+Proof.
+  intros [H1 H2 H3 H4 H5 H6a H6b H7 H8 H9]. unfold wfb. rewrite !andb_true_iff.
+  repeat split.
+  - apply nodupb_NoDup. exact H1.
+  - apply nodupb_NoDup. exact H2.
+  - apply (forallb_assoc _ _ H2). intros k t E. cbn. apply H3. apply amem_aget. eauto.
+  - apply (root_ok_spec s H1). exact H4.
+  - apply (forallb_assoc _ _ H1). intros k n E. apply node_ok_spec. apply H5. exact E.
+  - apply nodupb_NoDup. unfold own_wires. apply (NoDup_flat_map_assoc _ _ H1). split.
+    + intros k n E. apply (H6a k n E).
+    + intros k1 n1 k2 n2 w E1 E2. apply (H6b k1 n1 k2 n2 w E1 E2).
+  - apply (forallb_assoc _ _ H2). intros k t E. cbn. apply forallb_forall. intros w Hw.
+    apply Nat.ltb_lt. eapply H7; eauto.
+  - apply forallb_forall. intros wd Hin. apply Nat.ltb_lt. apply H8. unfold akeys. apply in_map. exact Hin.
+  - apply (forallb_assoc _ _ H1). intros k n E. cbn. destruct H9 as [d Hd].
+    apply (ranked_climbs _ d); [exact Hd|apply wf_parents_closed; exact H5|eapply aget_Some_keys; eauto].
+Qed.
+
+Theorem wfb_iff s : wfb s = true <-> wf s.
+Proof. split; [apply wfb_wf|apply wf_wfb]. Qed.
